@@ -107,4 +107,24 @@ theorem swapUnd_new_cells (R : Mat n) (a b c d : Fin n)
   by_cases hja : j = a <;> by_cases hjb : j = b <;> by_cases hjc : j = c <;> by_cases hjd : j = d <;>
     simp_all
 
+/-- every cell after the directed swap: unchanged, zeroed, or one of the two filled cells -/
+theorem swapDir_cell (R : Mat n) (a b c d : Fin n)
+    (hac : a ≠ c) (hbd : b ≠ d) (z1 : R a d = 0) (z2 : R c b = 0) (i j : Fin n) :
+    swapDirF R a b c d i j = R i j ∨ swapDirF R a b c d i j = 0 ∨ (i = a ∧ j = d) ∨ (i = c ∧ j = b) := by
+  rw [swapDirF_apply R a b c d hac hbd z1 z2]
+  by_cases hia : i = a <;> by_cases hic : i = c <;> by_cases hjb : j = b <;> by_cases hjd : j = d <;>
+    simp_all [Equiv.swap_apply_def]
+
+/-- every cell after the undirected swap: unchanged, zeroed, or one of the four filled cells -/
+theorem swapUnd_cell (R : Mat n) (a b c d : Fin n)
+    (hab : a ≠ b) (hac : a ≠ c) (had : a ≠ d) (hbc : b ≠ c) (hbd : b ≠ d) (hcd : c ≠ d)
+    (z1 : R a d = 0) (z2 : R d a = 0) (z3 : R c b = 0) (z4 : R b c = 0) (i j : Fin n) :
+    swapUndF R a b c d i j = R i j ∨ swapUndF R a b c d i j = 0 ∨
+      (i = a ∧ j = d) ∨ (i = d ∧ j = a) ∨ (i = c ∧ j = b) ∨ (i = b ∧ j = c) := by
+  rw [swapUndF_apply R a b c d hab hac had hbc hbd hcd z1 z2 z3 z4]
+  simp only [tauUnd, Prod.mk.injEq]
+  by_cases hia : i = a <;> by_cases hib : i = b <;> by_cases hic : i = c <;> by_cases hid : i = d <;>
+  by_cases hja : j = a <;> by_cases hjb : j = b <;> by_cases hjc : j = c <;> by_cases hjd : j = d <;>
+    simp_all
+
 end Bct.RewireConn
